@@ -8,8 +8,20 @@ from harness.common import bud
 from harness.sessions import SB
 
 PROP = "C20"
-MODULES = ["CassisModel.Properties.C20", "CassisModel.Properties.C20Ids"]
+MODULES = ["CassisModel.Properties.C20", "CassisModel.Properties.C20Ids", "CassisModel.Properties.C20Sens"]
 THEOREMS = [
+    "Cassis.Comparable.renderFrom_prim_sensitive",
+    "Cassis.Comparable.renderFrom_offset_sensitive",
+    "Cassis.Comparable.renderFrom_ref_sensitive",
+    "Cassis.Comparable.renderFrom_fsarray_elem_sensitive",
+    "Cassis.Comparable.renderFrom_fsarray_elem_sensitive_own",
+    "Cassis.Comparable.renderFrom_primarray_sensitive",
+    "Cassis.Comparable.renderFrom_primarray_sensitive_own",
+    "Cassis.Comparable.renderFrom_view_sensitive",
+    "Cassis.Comparable.renderFrom_indexed_sensitive",
+    "Cassis.Comparable.renderFrom_total",
+    "Cassis.Comparable.xidInj_of_findAllFs",
+    "Cassis.Comparable.anchorPlain_of_sofaID",
     "Cassis.Comparable.sortFs_perm_invariant",
     "Cassis.Comparable.sortFs_perm",
     "Cassis.Comparable.sortFs_sorted",
@@ -505,4 +517,62 @@ def replay(ctx, payload):
             return True
         same = b[bi]["ok"]["text"] == text
         return same if tag.startswith("mut:") else not same
+    return False
+
+
+# ---- recorded findings (witnesses through the public API; the generators stay outside these regions: view names never end in ')',
+# ---- references to array objects are compared by content only) ----
+def _n1_witness():
+    from cassis import Cas, TypeSystem
+    from cassis.util import cas_to_comparable_text
+
+    def build_view(view_of_y):
+        ts = TypeSystem(); A = ts.create_type("a.T"); B = ts.create_type("b.T")
+        cas = Cas(typesystem=ts)
+        v = cas.create_view("V"); v.sofa_string = "abcd"
+        w = cas.create_view("V(1)"); w.sofa_string = "abcd"
+        v.add(A(begin=0, end=1)); (v if view_of_y == "V" else w).add(B(begin=0, end=1))
+        return cas
+
+    def build_ref(target):
+        ts = TypeSystem()
+        A = ts.create_type("a.T"); B = ts.create_type("b.T"); C = ts.create_type("c.T")
+        H = ts.create_type("d.H"); ts.create_feature(H, "r", "uima.tcas.Annotation")
+        cas = Cas(typesystem=ts)
+        v = cas.create_view("V"); v.sofa_string = "abcd"
+        w = cas.create_view("V(1)"); w.sofa_string = "abcd"
+        x = A(begin=0, end=1); v.add(x); y = B(begin=0, end=1); v.add(y); z = C(begin=0, end=1); w.add(z)
+        v.add(H(begin=2, end=3, r={"y": y, "z": z}[target]))
+        return cas
+
+    return (cas_to_comparable_text(build_view("V")) == cas_to_comparable_text(build_view("V(1)"))
+            and cas_to_comparable_text(build_ref("y")) == cas_to_comparable_text(build_ref("z")))
+
+
+def _n2_witness():
+    from cassis import Cas, TypeSystem
+    from cassis.util import cas_to_comparable_text
+
+    def build_arr(target):
+        ts = TypeSystem(); H = ts.create_type("d.H"); ts.create_feature(H, "t", "uima.cas.TOP")
+        IA = ts.get_type("uima.cas.IntegerArray"); LA = ts.get_type("uima.cas.LongArray")
+        cas = Cas(typesystem=ts); cas.sofa_string = "abcd"
+        ia = IA(elements=[1, 2]); la = LA(elements=[1, 2]); cas.add(ia); cas.add(la)
+        cas.add(H(begin=2, end=3, t={"ia": ia, "la": la}[target]))
+        return cas
+
+    return cas_to_comparable_text(build_arr("ia")) == cas_to_comparable_text(build_arr("la"))
+
+
+def run_witness(ctx, finding):
+    import warnings
+    with warnings.catch_warnings():
+        warnings.simplefilter("ignore")
+        try:
+            if finding["id"] == "N1-anchor-counter-ambiguous":
+                return _n1_witness()
+            if finding["id"] == "N2-array-reference-by-content":
+                return _n2_witness()
+        except Exception:
+            return False
     return False
